@@ -49,6 +49,9 @@ def vectors(shape, tier, seed=0):
 
 
 def con_ctx(names, timeout_ms=6000):
+    from . import harness as _H
+    if _H.REPLAY["point"] is not None:
+        return _H.ConcreteCtx(list(names), _H.REPLAY["point"])
     ctx = Ctx(list(names), timeout_ms=timeout_ms)
     return ctx
 
